@@ -55,8 +55,12 @@ pub uninterp spec fn yaml_has__next_reference_id(s: Seq<char>) -> bool;
 pub proof fn axiom_serde_cache(s: Seq<char>)
     ensures %s
 { admit(); }
+pub proof fn axiom_serde_cache_all()
+    ensures forall|s: Seq<char>| %s
+{ admit(); }
 }
-""" % ("yaml_cache(s).is_some() ==> yaml_has__next_reference_id(s)" if required else "true"), "generated: serde contract of Cache")
+""" % (("yaml_cache(s).is_some() ==> yaml_has__next_reference_id(s)" if required else "true"),
+       ("(#[trigger] yaml_cache(s)).is_some() ==> yaml_has__next_reference_id(s)" if required else "#[trigger] yaml_cache(s) == yaml_cache(s)")), "generated: serde contract of Cache")
 
 
 def serde_axioms(u):
@@ -162,6 +166,7 @@ pub open spec fn lock_value(w: World, use_cache: bool, lp: Seq<char>) -> Option<
     else { None }
 }
 pub proof fn axiom_decode(s: Seq<char>) ensures decode(encode_utf8(s)) == s { admit(); }
+pub proof fn axiom_decode_all() ensures forall|s: Seq<char>| decode(#[trigger] encode_utf8(s)) == s { admit(); }
 }
 """
 
@@ -228,9 +233,8 @@ def build():
     ]
     f.at_start(' proof { reveal_strlit("Breadlog.lock"); assert("Breadlog.lock"@ =~= lock_name()); }')
     f.after_stmt("if let Ok(cache_yaml) = std::fs::read_to_string(", "") if False else None
-    s0, e0, _ = f.find_one("if let Ok(cache_yaml) =")
-    ob = f.mbody.index("{", e0)
-    f.insert_at(ob + 1, " proof { axiom_decode(cache_yaml@); axiom_serde_cache(cache_yaml@); }")
+    # quantified forms at the start: no anchor on the shape of the read (if-let or match)
+    f.at_start(" proof { axiom_decode_all(); axiom_serde_cache_all(); }")
     # ---- new --------------------------------------------------------------------------------------------
     f = u.real_fn(CTX, "new", scope=IMPL, owner="Context", props=("C04", "C15", "C16", "C17"))
     rules.sig(f, ret="res", world=True)
